@@ -121,13 +121,27 @@ func (g *DirectedTargetGraph) GetDependencies(target model.BuildNode) []model.Bu
 	return g.inEdges[target.GetLabel()]
 }
 
+// GetTargetDependencies returns the targets a node directly depends on.
+// Aliases are transparent: a dependency on an alias is a dependency on the target it (transitively) points to.
 func (g *DirectedTargetGraph) GetTargetDependencies(node model.BuildNode) []*model.Target {
 	var targets []*model.Target
-	for _, dependency := range g.GetDependencies(node) {
-		if target, ok := dependency.(*model.Target); ok {
-			targets = append(targets, target)
+	seen := make(map[label.TargetLabel]bool)
+
+	var collect func(current model.BuildNode)
+	collect = func(current model.BuildNode) {
+		for _, dependency := range g.GetDependencies(current) {
+			if seen[dependency.GetLabel()] {
+				continue
+			}
+			seen[dependency.GetLabel()] = true
+			if target, ok := dependency.(*model.Target); ok {
+				targets = append(targets, target)
+			} else {
+				collect(dependency)
+			}
 		}
 	}
+	collect(node)
 	return targets
 }
 
